@@ -1,6 +1,7 @@
 //! Text / small-pure-function drivers (B3 case replay, B2 traces) — DESIGN.md §7.5, §7.3 C43, §7.1 C47.
 mod c11;
 mod c43;
+mod c47;
 mod c52;
 
 fn main() {
@@ -10,6 +11,7 @@ fn main() {
         "c52" => c52::main(),
         "c11" => c11::main(),
         "c43" => c43::main(),
+        "c47" => c47::main(),
         _ => {
             eprintln!("usage: vtext <c52|c11|c43|c47> [options]");
             std::process::exit(2);
